@@ -12,7 +12,8 @@ from typing import Any, Dict, List, Optional
 
 from . import ctx, seams
 from .ctx import Run, Schedule
-from .loop import DetLoop, Deadlock, Livelock, h64
+from .loop import DetLoop, Deadlock, Livelock, SyncHang, h64
+import signal
 
 import mosaik
 from mosaik import scheduler
@@ -38,6 +39,31 @@ class Result:
         self.stats = {}
         self.world_info = {}
         self.tb = None
+
+
+WATCHDOG_S = float(os.environ.get("DSIM_WATCHDOG_S", "8"))
+
+
+_WD_SCALE = [1.0]
+
+
+def _on_watchdog(signum, frame):
+    raise SyncHang("watchdog: synchronous code did not return")
+
+
+def _arm_watchdog():
+    try:
+        signal.signal(signal.SIGALRM, _on_watchdog)
+        signal.setitimer(signal.ITIMER_REAL, WATCHDOG_S * _WD_SCALE[0])
+    except ValueError:      # not in the main thread
+        pass
+
+
+def _disarm_watchdog():
+    try:
+        signal.setitimer(signal.ITIMER_REAL, 0)
+    except ValueError:
+        pass
 
 
 def sim_config_for(scenario) -> Dict[str, Any]:
@@ -125,6 +151,7 @@ def execute(scenario: Dict[str, Any], sched_spec: Optional[Dict[str, Any]] = Non
     ctx.set_current(run)
     asyncio.set_event_loop(loop)
     res = Result()
+    _arm_watchdog()
     res.scenario = scenario
     res.sched = sched
     res.faults = faults or []
@@ -151,6 +178,10 @@ def execute(scenario: Dict[str, Any], sched_spec: Optional[Dict[str, Any]] = Non
                 res.outcome = _drive(world, scenario, run, res, hooks)
             except Deadlock:
                 res.outcome = ("deadlock", "setup")
+            except SyncHang as e:
+                res.outcome = ("hang", _where(e.__traceback__))
+                res.tb = traceback.format_exc()
+                _arm_watchdog()      # for the clean-up below
             finally:
                 run.rec("run_returned")
                 try:
@@ -161,7 +192,7 @@ def execute(scenario: Dict[str, Any], sched_spec: Optional[Dict[str, Any]] = Non
                         else:
                             try:
                                 world.shutdown()
-                            except (Deadlock, Livelock):
+                            except (Deadlock, Livelock, SyncHang):
                                 run.rec("shutdown_stuck")
                             except Exception as e:  # noqa: BLE001
                                 run.rec("shutdown_exc", type(e).__name__, str(e)[:200])
@@ -186,6 +217,7 @@ def execute(scenario: Dict[str, Any], sched_spec: Optional[Dict[str, Any]] = Non
                     continue
                 run.rec("warning", w.category.__name__, str(w.message)[:300])
     finally:
+        _disarm_watchdog()
         ctx.set_current(None)
         asyncio.set_event_loop(None)
         del seams._pending_node[:]
@@ -231,7 +263,7 @@ def _drive(world, scenario, run, res, hooks):
                     try:
                         params = dict(s.get("params", {}))
                         mf = world.start(f"N{x}", sim_id=s["sid"], spec=s, **params)
-                    except (Deadlock, Livelock):
+                    except (Deadlock, Livelock, SyncHang):
                         raise
                     except SystemExit as e:
                         run.rec("start_result", s["sid"], "SystemExit", str(e)[:200])
@@ -271,6 +303,8 @@ def _drive(world, scenario, run, res, hooks):
             verdicts[i] = ("ok", None)
         except ScenarioError as e:
             verdicts[i] = ("ScenarioError", str(e)[:400])
+        except SyncHang:
+            raise
         except BaseException as e:  # noqa: BLE001
             verdicts[i] = (type(e).__name__, str(e)[:400])
             res.tb = traceback.format_exc()
@@ -295,6 +329,8 @@ def _drive(world, scenario, run, res, hooks):
         return ("deadlock", "run")
     except Livelock:
         return ("livelock", "run")
+    except SyncHang:
+        raise
     except SimulationError as e:
         res.tb = traceback.format_exc()
         return ("exception", "SimulationError", str(e)[:300], _where(e.__traceback__))
